@@ -277,8 +277,8 @@ impl Prop for C04 {
     fn rule(&self) -> String {
         "Generated: (operation in {mul_rounded, div_rounded, quantize}, x, y, n, thread-default mode); operand combinations Decimal/Decimal, Decimal/T, T/Decimal, T/T (9 integer types), \
          n in 0..=18 plus 19..=255 for the rejection clause; branch-directed div_rounded cases: equal scales, dividend-scaled narrow and wide, divisor-scaled (p > n+q) with first-stage remainder and second-stage tie/near-tie (double-rounding detector), \
-         ties at n digits for div_rounded and mul_rounded, quantize with x an exact half-multiple / multiple / near-multiple of a quantum of either sign. \
-         Oracle: one exact rational rounded once by the mode definitions; quantize = R_m(x/q)*q by value (for a negative quantum under Ceiling/Floor both readings are accepted). \
+         ties at n digits for div_rounded and mul_rounded, quantize with x an exact half-multiple / multiple / near-multiple of a quantum of either sign, unit-like second operands (+-m*10^z as Decimal or integer), results exactly at +-(2^127-1), wide-division-path pairs; follow-up cases repeat an operand of the previous case. \
+         Oracle: one exact rational rounded once by the mode definitions; quantize = R_m(x/q)*q by value (for a negative quantum under Ceiling/Floor both readings are accepted, but the same quantum written with another number of trailing zeros or as an integer must select the same multiple). \
          Non-trivial: rounding discarded something, or divisor-scaled branch, or wide intermediate, or n > 18. Distinct: hash of the case."
             .into()
     }
